@@ -1051,6 +1051,83 @@ func checkClockRebuild(c *Ctx) {
 	} else {
 		c.Undecided("R5.5", "anchor:GoGitRepo.getClock", "repository", "not found")
 	}
+	// the clocks table never replaces an instance it has handed out
+	{
+		nIns := 0
+		for _, f := range w.ModFns {
+			if fnPkgPath(f) != modPath+"/repository" || isInstance(f) || w.isTestHelper(f) {
+				continue
+			}
+			for _, b := range f.Blocks {
+				for _, ins := range b.Instrs {
+					mu, ok := ins.(*ssa.MapUpdate)
+					if !ok {
+						continue
+					}
+					if _, fld, isF := loadOfField(mu.Map); !isF || fld != "clocks" {
+						continue
+					}
+					if !strings.Contains(typeShortName(mu.Map.Type()), "lamport") && !strings.Contains(mu.Map.Type().String(), "lamport") {
+						continue
+					}
+					nIns++
+					c.Sites++
+					c.seeFn(funcName(f))
+					okAbsent := false
+					// (a) the not-found edge of a comma-ok look-up of the same map with the same key
+					for _, b2 := range f.Blocks {
+						if len(b2.Instrs) == 0 {
+							continue
+						}
+						iff, isIf := b2.Instrs[len(b2.Instrs)-1].(*ssa.If)
+						if !isIf {
+							continue
+						}
+						ex, isEx := iff.Cond.(*ssa.Extract)
+						if !isEx || ex.Index != 1 {
+							continue
+						}
+						lk, isLk := ex.Tuple.(*ssa.Lookup)
+						if !isLk {
+							continue
+						}
+						if _, fld2, isF2 := loadOfField(lk.X); !isF2 || fld2 != "clocks" {
+							continue
+						}
+						if !(lk.Index == mu.Key || sameExpr(lk.Index, mu.Key, 0)) {
+							continue
+						}
+						if edgeDominates(b2, 1, b) {
+							okAbsent = true
+						}
+					}
+					// (b) the failure edge of getClock(same key)
+					for _, cl := range Calls(f) {
+						if cl.Name != "repository.GoGitRepo.getClock" {
+							continue
+						}
+						cv, isCall := cl.Instr.(*ssa.Call)
+						if !isCall || len(cv.Common().Args) < 2 || !(cv.Common().Args[1] == mu.Key || sameExpr(cv.Common().Args[1], mu.Key, 0)) {
+							continue
+						}
+						for _, fb := range failureBlocksThroughPhi(cv) {
+							if fb.Dominates(b) {
+								okAbsent = true
+							}
+						}
+						for _, fb := range failureBlocks(cv) {
+							if fb.Dominates(b) {
+								okAbsent = true
+							}
+						}
+					}
+					c.Check(okAbsent, "R5.5", funcName(f)+":clock-inserted-only-when-absent", w.InstrPos(mu), "the table entry is written only where the name was found absent",
+						"an entry of the clocks table is overwritten although the name may already have an instance: a goroutine that obtained the old instance keeps incrementing it while the table hands out the reloaded one, so two commits get the same time (and a later read refuses the history)")
+				}
+			}
+		}
+		c.Check(nIns >= 3, "R5.5", "expected:clock-table-insertions", "repository", fmt.Sprintf("%d insertions into the clocks table", nIns), fmt.Sprintf("only %d insertions into the clocks table found (reference 3)", nIns))
+	}
 	// the creation of a clock that does not exist yet is atomic with the look-up that missed it
 	if goc := w.Method("repository", "GoGitRepo", "GetOrCreateClock"); goc != nil {
 		c.seeFn(funcName(goc))
